@@ -218,14 +218,13 @@ theorem exec_interp (log : List TC) (ha : ∀ c ∈ log, AlignOK c) (hok : (inte
 /-- **end to end**: the calls of a log made through the translated builder functions, then the translated `TextRenderer.Render`:
 the text of the model's renderer on the table `interp` reads from the log (the same bytes, the same panic outcomes) -/
 theorem log_Render_agrees (log : List TC) (ha : ∀ c ∈ log, AlignOK c) (hok : (interp log).ok = true)
-    (tr : table.TextRenderer) (w : String) (cs : Color.State) (ff : Fmt.FloatFmt) (hc : tr.Color = false)
-    (hw : WidthsOK (rendOf tr) (interp log).tbl) :
+    (tr : table.TextRenderer) (w : String) (cs : Color.State) (ff : Fmt.FloatFmt) (hc : tr.Color = false) :
     (execLog ⟨GoZero.zero, []⟩ log).bind (fun g => table.TextRenderer.Render tr g.T w cs ff)
       = match Table.renderText (rendOf tr) (interp log).tbl with
         | .ok s => GoSem.Outcome.ok ({ tr with table := GoZero.zero }, w ++ String.ofList s, none)
         | .panic _ => GoSem.Outcome.panic idxPanic := by
   rw [exec_interp log ha hok]
-  exact Render_agrees tr (interp log).tbl w cs ff hc hw
+  exact Render_agrees tr (interp log).tbl w cs ff hc
 
 theorem log_CSV_agrees (log : List TC) (ha : ∀ c ∈ log, AlignOK c) (hok : (interp log).ok = true)
     (cr : table.CSVRenderer) (w : String) (ff : Fmt.FloatFmt) :
